@@ -480,10 +480,14 @@ def rule_for_to_while(text, ordinal, kind, log, label):
     toks = R.lex(text)
     loops = _find_loops(text, toks)
     if ordinal > len(loops):
-        raise Undecided('%s: loop %d not found' % (label, ordinal))
+        # the loop is gone (a change removed it): nothing to rewrite; its invariants are dropped below and the
+        # function's ensures clauses decide on the new body
+        log.append(('R1', '%s: loop %d no longer exists; loop rewrite skipped' % (label, ordinal)))
+        return text
     kw, bo = loops[ordinal - 1]
     if toks[kw].text != 'for':
-        raise Undecided('%s: loop %d is not a for loop' % (label, ordinal))
+        log.append(('R1', '%s: loop %d is no longer a `for` loop; loop rewrite skipped' % (label, ordinal)))
+        return text
     # find `in`
     j = kw + 1
     while not (toks[j].kind == 'id' and toks[j].text == 'in'):
@@ -774,7 +778,8 @@ def weave_fn(w, item_id, text, spec, log):
                     raise Undecided('%s: loop %d header /%s/ is ambiguous' % (item_id, k, hdr))
         else:
             if k < 1 or k > len(loops):
-                raise Undecided('%s: loop %d not found (function has %d loops)' % (item_id, k, len(loops)))
+                log.append(('R10', '%s: loop %d no longer exists (function has %d loops); its invariants are dropped' % (item_id, k, len(loops))))
+                continue
             resolved[k] = k - 1
     if len(set(resolved.values())) != len(resolved):
         raise Undecided('%s: two loop specifications resolve to the same loop' % item_id)
